@@ -23,6 +23,23 @@ def _is_cursor_ident(c, key_expr):
     return False
 
 
+def _ctx_pats(parents):
+    """patterns that are known to have matched around a node: enclosing match arms and `if let` / `let .. else` heads"""
+    res = []
+    for i, p in enumerate(parents):
+        if p.get("k") == "Arm":
+            res.append(p["pat"])
+        elif p.get("k") == "If":
+            nxt = parents[i + 1] if i + 1 < len(parents) else None
+            if nxt is not None and nxt is p.get("then"):
+                res += [x["pat"] for x in hir.nodes(p["cond"], "LetExpr")]
+    return res
+
+
+def _in_ctx(parents, variant):
+    return any(variant in hir.pat_variants_all(pt) for pt in _ctx_pats(parents))
+
+
 def feature_bodies(prog):
     c = prog.lsp
     return [b for b in c.bodies if b["p"].startswith("lsp4spl::features") and "/tests" not in c.file_of(b["sp"])
@@ -83,13 +100,11 @@ def rule_scope_order(prog):
             recv_t = _recv_adt(bc, n)
             # procedure-context arm?
             proc_bind = None
-            for p in parents:
-                if p.get("k") == "Arm":
-                    pv = hir.pat_variant(p["pat"])
-                    if pv == GENTRY + "::Procedure":
-                        bs = list(hir.pat_bindings(p["pat"]))
-                        if bs:
-                            proc_bind = "%s#%s" % (bs[0]["name"], bs[0]["id"])
+            for pt in _ctx_pats(parents):
+                if (GENTRY + "::Procedure") in hir.pat_variants_all(pt):
+                    bs = list(hir.pat_bindings(pt))
+                    if bs:
+                        proc_bind = "%s#%s" % (bs[0]["name"], bs[0]["id"])
             if recv_t == LT:
                 n_sites += 1
                 # where was the LookupTable built? find the struct literal bound to the receiver local
@@ -139,7 +154,7 @@ def rule_scope_order(prog):
                 continue
             f = {x["name"]: x["e"] for x in st["fields"]}
             lt = hir.strip(f.get("local_table", {}))
-            proc_here = any(p.get("k") == "Arm" and hir.pat_variant(p["pat"]) == GENTRY + "::Procedure" for p in parents) or any(
+            proc_here = _in_ctx(parents, GENTRY + "::Procedure") or any(
                 hir.adt_path(bc, pp["bt"]) in ("spl_frontend::ast::ProcedureDeclaration", "spl_frontend::table::ProcedureEntry")
                 for q in b["params"] for pp in hir.pat_bindings(q))
             is_none = lt.get("k") == "Path" and last(lt["res"].get("ctor_of", "")) == "None"
@@ -157,11 +172,11 @@ def rule_scope_order(prog):
         for n, parents in hir.walk(b["body"]):
             if n.get("k") == "MethodCall" and n["m"] == "lookup" and n["args"] and _recv_adt(bc, n) == GT:
                 kp = place(hir.strip_ref(n["args"][0])) or ""
-                in_proc_arm = any(p.get("k") == "Arm" and hir.pat_variant(p["pat"]) == GENTRY + "::Procedure" for p in parents)
+                in_proc_arm = _in_ctx(parents, GENTRY + "::Procedure")
                 is_cur = _is_cursor_ident(bc, n["args"][0])
                 if is_cur and in_proc_arm:
                     continue  # already reported above
-                if is_cur and not any(p.get("k") == "Arm" and hir.pat_variant(p["pat"]) == GENTRY + "::Type" for p in parents):
+                if is_cur and not _in_ctx(parents, GENTRY + "::Type"):
                     n_sites += 1
                     out.add(b["d"], "cursor identifier is not resolved against the global table where a local table is in scope",
                             False, bc.loc(n["sp"]), "global lookup of the cursor identifier next to a procedure's local table", ("site",))
@@ -574,9 +589,9 @@ def rule_semtok_pairing(prog):
 def rule_fmt_pure(prog):
     out = Out("FMT-PURE")
     c = prog.lsp
-    fmt_bodies = [b for b in c.bodies if b["p"].startswith("lsp4spl::features::formatting::fmt::")]
+    fmt_bodies = [b for b in c.bodies if b["p"].startswith("lsp4spl::features::formatting::") and "/tests" not in c.file_of(b["sp"])]
     if len(fmt_bodies) < 20:
-        out.missing("formatting::fmt::* (found %d)" % len(fmt_bodies))
+        out.missing("formatting::* (found %d)" % len(fmt_bodies))
         return out
     bad = []
     for b in fmt_bodies:
@@ -585,38 +600,63 @@ def rule_fmt_pure(prog):
                 bad.append((b, n))
     out.add("formatting::fmt", "output does not depend on byte positions of the input layout", not bad,
             c.loc(bad[0][1]["sp"]) if bad else "", "the printer reads Token.range: two layouts of the same token sequence can then format differently")
-    ind = [b for b in fmt_bodies if b["name"] == "indentation"]
+
+    def sig(b):
+        if "sig_in" not in b:
+            return None, None
+        return [c.tstr(t).replace(" ", "") for t in b["sig_in"]], c.tstr(b["sig_out"]).replace(" ", "")
+
+    # the printer's option type: the local struct built from (char, usize); its unit function fn(&Opts) -> String
+    ctors = [b for b in fmt_bodies if sig(b)[0] == ["char", "usize"] and (sig(b)[1] or "").startswith("features::formatting")]
+    opts_t = sig(ctors[0])[1] if ctors else None
+    ind = [b for b in fmt_bodies if opts_t and sig(b)[0] == ["&" + opts_t] and sig(b)[1] == "std::string::String"]
     if not ind:
         out.missing("FormattingOptions::indentation")
     else:
         ok = False
         for call in hir.nodes(ind[0]["body"], "Call"):
             if last(hir.callee(call) or "") == "from_elem" and len(call["args"]) == 2:
+                t0, t1 = c.tstr(call["args"][0]["t"]), c.tstr(call["args"][1]["t"])
                 a0, a1 = place(call["args"][0]) or "", place(call["args"][1]) or ""
-                ok = a0.endswith(".indent_symbol") and a1.endswith(".indent_depth")
-        reps = [x for x in hir.nodes(ind[0]["body"], "Repeat")]
+                ok = "." in a0 and "." in a1 and t0 == "char" and t1 == "usize"
+        for mc in hir.nodes(ind[0]["body"], "MethodCall"):
+            if mc["m"] == "repeat" and mc["args"] and c.tstr(mc["args"][0]["t"]) == "usize" and "." in (place(mc["args"][0]) or ""):
+                ok = True
         out.add("FormattingOptions::indentation", "one indentation level = indent_symbol repeated exactly indent_depth times", ok, c.loc(ind[0]["sp"]),
                 "the unit must be exactly the requested one (tabSize 0 means no indentation)")
     f = prog.body("lsp4spl::features::formatting::format")
     if f is None:
         out.missing("formatting::format")
         return out
-    news = [n for n in hir.nodes(f["body"], "Call") if (hir.callee_display(n) or "").endswith("FormattingOptions::new")]
-    ok = False
+    # where the options are chosen: in the handler or in a conversion helper it calls
+    reach = [f]
+    for n in hir.nodes_deep(prog, f["body"], 2, crate=c):
+        if n.get("k") in ("Call", "MethodCall"):
+            hb = hir.local_callee_body(prog, n)
+            if hb is not None and hb["_crate"] is c and hb["p"].startswith("lsp4spl::features::formatting") and hb not in reach:
+                reach.append(hb)
+    ctor_ps = set(b["p"] for b in ctors)
+    ok = None
     detail = ""
-    for n, parents in hir.walk(f["body"]):
-        if n.get("k") == "If":
-            cond = place(n["cond"]) or ""
-            if cond.endswith(".insert_spaces"):
-                t = [x for x in hir.nodes(n["then"], "Call") if x in news]
-                e = [x for x in hir.nodes(n.get("else") or {}, "Call") if x in news]
-                if len(t) == 1 and len(e) == 1:
-                    ta, ea = t[0]["args"], e[0]["args"]
-                    t_ok = hir.lit_value(ta[0]) == " " and (place(hir.strip(ta[1]).get("e", ta[1])) or place(ta[1]) or "").endswith(".tab_size")
-                    e_ok = hir.lit_value(ea[0]) == "\t" and hir.lit_value(ea[1]) == "1"
-                    ok = t_ok and e_ok
-                    detail = "spaces: (%r, %s) tabs: (%r, %s)" % (hir.lit_value(ta[0]), place(hir.strip(ta[1]).get("e", ta[1])), hir.lit_value(ea[0]), hir.lit_value(ea[1]))
-    out.add("formatting::format", "indentation unit follows insertSpaces/tabSize", ok and len(news) == 2, c.loc(f["sp"]), detail)
+    n_news = 0
+    for rb in reach:
+        news = [n for n in hir.nodes(rb["body"], "Call") if (hir.callee(n) or "") in ctor_ps]
+        n_news += len(news)
+        for n, parents in hir.walk(rb["body"]):
+            if n.get("k") == "If":
+                cond = place(n["cond"]) or ""
+                if cond.endswith(".insert_spaces"):
+                    t = [x for x in hir.nodes(n["then"], "Call") if x in news]
+                    e = [x for x in hir.nodes(n.get("else") or {}, "Call") if x in news]
+                    if len(t) == 1 and len(e) == 1:
+                        ta, ea = t[0]["args"], e[0]["args"]
+                        t_ok = hir.lit_value(ta[0]) == " " and (place(hir.strip(ta[1]).get("e", ta[1])) or place(ta[1]) or "").endswith(".tab_size")
+                        e_ok = hir.lit_value(ea[0]) == "\t" and hir.lit_value(ea[1]) == "1"
+                        ok = t_ok and e_ok
+                        detail = "spaces: (%r, %s) tabs: (%r, %s)" % (hir.lit_value(ta[0]), place(hir.strip(ta[1]).get("e", ta[1])), hir.lit_value(ea[0]), hir.lit_value(ea[1]))
+    if ok is True and n_news != 2:
+        ok = False
+    out.add("formatting::format", "indentation unit follows insertSpaces/tabSize", ok, c.loc(f["sp"]), detail)
     # null iff nothing changes; edit covers the whole document
     ok = False
     for n in hir.nodes(f["body"], "If"):
@@ -663,16 +703,27 @@ def rule_comment_pairing(prog):
                 if r.get("k") == "Def" and r["p"] in tags:
                     toks.append(tags[r["p"]])
             own[name] = toks
-    helpers = ("add_all_comments", "add_leading_comments")
+    from . import roles
+    helper_ps = roles.comment_helpers(prog)
+    if not helper_ps:
+        out.missing("comment re-attachment helpers (fn(String, &[Token]) -> String testing TokenType::Comment) in features::formatting")
+        return out
+
+    def helper_calls(root):
+        return [n for n in hir.nodes(root, "Call") if (hir.callee(n) or "") in helper_ps]
+
+    def self_node(b):
+        if "impl_self" not in b:
+            return None
+        st = c.ty(b["impl_self"])
+        return last(st["p"]) if st["k"] == "adt" and st["p"].startswith("spl_frontend::ast::") else None
+
     seen = 0
     for b in c.bodies:
-        if not b["p"].startswith("lsp4spl::features::formatting::fmt::") or b["name"] != "fmt" or "impl_self" not in b:
+        if not b["p"].startswith("lsp4spl::features::formatting") or b["p"] in helper_ps or "/tests" in c.file_of(b["sp"]) or b["k"] == "closure":
             continue
-        st = c.ty(b["impl_self"])
-        if st["k"] != "adt" or not st["p"].startswith("spl_frontend::ast::"):
-            continue
-        node = last(st["p"])
-        calls = [n for n in hir.nodes(b["body"], "Call") if last(hir.callee(n) or "") in helpers]
+        node = self_node(b) if b["name"] == "fmt" else None
+        calls = helper_calls(b["body"])
         if node == "Program":
             seen += 1
             out.add("Format for Program", "comments in front of end-of-file are printed", bool(calls), c.loc(b["sp"]),
@@ -680,17 +731,8 @@ def rule_comment_pairing(prog):
                     "node: they are dropped by formatting", ("Program",))
             continue
         for n in calls:
-            which = last(hir.callee(n))
-            # which node's slice is commented? second argument: X.info.slice(tokens) / info.slice(tokens)
-            arg = hir.strip(n["args"][1]) if len(n["args"]) > 1 else {}
-            tgt = node
-            subj = None
-            if arg.get("k") == "MethodCall" and arg["m"] == "slice":
-                subj = place(arg["recv"]) or ""
-                t_adt = None
-            elif arg.get("k") == "Match":
-                subj = place(arg["scrut"]) or "match"
-            # node type the helper is applied for: type of the first argument's formatted node
+            which = roles.classify_comment_call(prog, n)
+            # node type the helper is applied for: type of the formatted node in the String argument
             first = hir.strip(n["args"][0])
             label = node
             if first.get("k") == "MethodCall" and first["m"] == "fmt":
@@ -699,30 +741,30 @@ def rule_comment_pairing(prog):
                     t = hir.peel(c, a["to"])
                 if t["k"] == "adt":
                     label = last(t["p"]) if last(t["p"]) != "Reference" else last(c.ty(int(t["a"][0]))["s"])
-            elif hir.lit_value(first) is not None:
-                label = node + "::Empty"
-            toks = own.get(label.split("::")[0], own.get(node, []))
+            elif hir.lit_value(first) is not None or (first.get("k") == "MethodCall" and hir.lit_value(hir.strip(first["recv"])) is not None):
+                label = (node or "?") + "::Empty"
+            if label is None:
+                out.add(b["d"], "comment helper application", None, c.loc(n["sp"]), "cannot tell which node is printed here")
+                continue
+            toks = own.get(label.split("::")[0], [])
             composite = len(toks) >= 2
             seen += 1
-            ok = which == "add_all_comments" or not composite
-            out.add("Format for " + node, "comments inside %s are kept (%s)" % (label, which), ok, c.loc(n["sp"]),
+            ok = None if which is None else (which == "all" or not composite)
+            out.add("Format for " + label.split("::")[0], "comments inside %s are kept" % label, ok, c.loc(n["sp"]),
                     "`%s` has %d own tokens (%s); its parser skips comments in front of each of them, but the formatter only "
                     "re-attaches the comments in front of the first token: every other comment inside is lost"
-                    % (label, len(toks), ", ".join(toks)), (node,))
+                    % (label, len(toks), ", ".join(toks)), (label.split("::")[0],))
     # every variant of Statement / GlobalDeclaration re-attaches (at least) the comments in front of its first token:
     # in its arm, or in the Format impl the arm delegates to, or by printing the raw token slice (AstInfo::fmt)
     impl_has_helper = {}
     for b in c.bodies:
-        if b["p"].startswith("lsp4spl::features::formatting::fmt::") and b["name"] == "fmt" and "impl_self" in b:
-            st = c.ty(b["impl_self"])
-            if st["k"] == "adt":
-                impl_has_helper[last(st["p"])] = any(last(hir.callee(n) or "") in helpers for n in hir.nodes(b["body"], "Call"))
+        if b["p"].startswith("lsp4spl::features::formatting") and b["name"] == "fmt" and self_node(b):
+            impl_has_helper[self_node(b)] = any(n.get("k") == "Call" and (hir.callee(n) or "") in helper_ps
+                                                for n in hir.nodes_deep(prog, b["body"], 1, crate=c))
     for b in c.bodies:
-        if not (b["p"].startswith("lsp4spl::features::formatting::fmt::") and b["name"] == "fmt" and "impl_self" in b):
+        if not (b["p"].startswith("lsp4spl::features::formatting") and b["name"] == "fmt" and self_node(b) in ("Statement", "GlobalDeclaration")):
             continue
         st = c.ty(b["impl_self"])
-        if st["k"] != "adt" or last(st["p"]) not in ("Statement", "GlobalDeclaration"):
-            continue
         for m in hir.nodes(b["body"], "Match"):
             if m["src"] != "match":
                 continue
@@ -730,11 +772,11 @@ def rule_comment_pairing(prog):
                 pv = hir.pat_variant(arm["pat"]) or ""
                 if not pv.startswith(st["p"] + "::"):
                     continue
-                direct = any(last(hir.callee(n) or "") in helpers for n in hir.nodes(arm["body"], "Call"))
+                direct = bool(helper_calls(arm["body"]))
                 delegated = False
                 raw = False
-                for mc in hir.nodes(arm["body"], "MethodCall"):
-                    if mc["m"] == "fmt":
+                for mc in hir.nodes_deep(prog, arm["body"], 1, crate=c):
+                    if mc.get("k") == "MethodCall" and mc["m"] == "fmt":
                         t = hir.peel(c, mc["recv"]["t"])
                         for a in mc["recv"].get("adj") or []:
                             t = hir.peel(c, a["to"])
@@ -743,6 +785,8 @@ def rule_comment_pairing(prog):
                                 raw = True
                             elif impl_has_helper.get(last(t["p"])):
                                 delegated = True
+                    elif mc.get("k") == "Call" and (hir.callee(mc) or "") in helper_ps:
+                        direct = True
                 seen += 1
                 out.add("Format for " + last(st["p"]), "%s::%s re-attaches the comments in front of its first token" % (last(st["p"]), last(pv)),
                         direct or delegated or raw, c.loc(arm["sp"]),
@@ -761,30 +805,72 @@ def rule_same_finder(prog):
     out = Out("SAME-FINDER")
     c = prog.lsp
     sigs = {}
+
+    def is_whole_tokens(e):
+        """e denotes `<AnalyzedSource>.tokens`"""
+        e = hir.strip_ref(e)
+        if e.get("k") == "Field" and e["name"] == "tokens":
+            t = c.tstr(e["base"]["t"])
+            for ad in e["base"].get("adj") or []:
+                t = c.tstr(ad["to"])
+            return "AnalyzedSource" in t
+        return False
+
+    def _param_ids_of(body):
+        ids = []
+        for pp in body["params"]:
+            bs = list(hir.pat_bindings(pp))
+            ids.append(bs[0]["id"] if len(bs) == 1 else None)
+        return ids
+
+    def tokens_arg_ok(body, depth=2):
+        """every to_text_range(..) reachable from body gets the document's whole token vector -> True/False/None"""
+        res = None
+        for n in hir.nodes(body["body"]):
+            if n.get("k") == "MethodCall" and n["m"] == "to_text_range" and n["args"] and \
+                    hir.adt_path(c, n["recv"]["t"]) == "spl_frontend::ast::Identifier":
+                a0 = n["args"][0]
+                if is_whole_tokens(a0):
+                    res = True if res is None else res
+                else:
+                    pl = hir.path_local(hir.strip_ref(a0))
+                    if pl and pl["id"] in _param_ids_of(body):
+                        res = ("param", _param_ids_of(body).index(pl["id"])) if res is None else res
+                    else:
+                        return False
+            elif n.get("k") == "Call" and depth > 0:
+                hb = hir.local_callee_body(prog, n)
+                if hb is None or hb["_crate"] is not c or hb["p"] == body["p"]:
+                    continue
+                r = tokens_arg_ok(hb, depth - 1)
+                if isinstance(r, tuple):
+                    i_ = r[1]
+                    r = is_whole_tokens(n["args"][i_]) if i_ < len(n["args"]) else False
+                if r is False:
+                    return False
+                if r is True and res is None:
+                    res = True
+        return res
+
     for fn in ("find", "rename"):
         b = prog.body("lsp4spl::features::references::" + fn)
         if b is None:
             out.missing("references::" + fn)
             return out
-        calls = [n for n in hir.nodes(b["body"], "Call") if (hir.callee_display(n) or "").endswith("find_referenced_identifiers")]
-        sigs[fn] = [tuple((place(a) or "?").split("#")[0] for a in n["args"]) for n in calls]
-        conv = [n for n in hir.nodes(b["body"], "MethodCall") if n["m"] == "to_text_range"]
-        tk = (place(conv[0]["args"][0]) or "") if conv else ""
-        if not conv:
-            # the conversion may live in a local helper: its tokens parameter must be fed with doc.tokens
-            for call in hir.nodes(b["body"], "Call"):
-                hb = hir.local_callee_body(prog, call)
-                if hb is None:
-                    continue
-                hconv = [n for n in hir.nodes(hb["body"], "MethodCall") if n["m"] == "to_text_range"]
-                if hconv:
-                    pl = hir.path_local(hir.strip_ref(hconv[0]["args"][0]))
-                    for i_, pp in enumerate(hb["params"]):
-                        if pl and pp.get("k") == "Binding" and pp["id"] == pl["id"] and i_ < len(call["args"]):
-                            tk = place(call["args"][i_]) or ""
-        ok_tk = (tk.split("#")[0] == "doc" and tk.endswith(".tokens")) if tk else None
+        # the finder: the local function that hands out the vector of occurrences
+        calls = []
+        for n in hir.nodes(b["body"], "Call"):
+            hb = hir.local_callee_body(prog, n)
+            if hb is None or hb["_crate"] is not c or "sig_out" not in hb:
+                continue
+            so = c.tstr(hb["sig_out"])
+            if "Vec<" in so and ("ast::Identifier" in so or "features::Ident" in so):
+                calls.append((hb["p"], n))
+        sigs[fn] = [(p_,) + tuple((place(hir.strip_ref(a)) or "?").split("#")[0] for a in n["args"]) for p_, n in calls]
+        r = tokens_arg_ok(b)
+        ok_tk = r if r in (True, False) else None
         out.add("references::" + fn, "occurrences are converted against the whole token vector", ok_tk,
-                c.loc(b["sp"]), "to_text_range(%s)" % tk)
+                c.loc(b["sp"]), "")
     out.add("references", "find and rename use the same finder with the same arguments",
             len(sigs["find"]) == 1 and sigs["find"] == sigs["rename"], "", "find: %s rename: %s" % (sigs["find"], sigs["rename"]))
     return out
